@@ -69,10 +69,10 @@ Inductive write_outcome (w : writer) (h data ts now : Z) : writer * wres -> Prop
     w_register w h = None -> write_outcome w h data ts now (w, WOutOfResources)
 | WO_mspi insts1 :
     w_register w h = Some insts1 -> w_mspi_hit (w_qos w) insts1 h = true ->
-    write_outcome w h data ts now (mkW insts1 (w_seq w) (w_changes w) (w_qos w), WOutOfResources)
+    write_outcome w h data ts now (w, WOutOfResources)
 | WO_ms insts1 :
     w_register w h = Some insts1 -> w_mspi_hit (w_qos w) insts1 h = false -> w_ms_hit (w_qos w) insts1 = true ->
-    write_outcome w h data ts now (mkW insts1 (w_seq w) (w_changes w) (w_qos w), WOutOfResources)
+    write_outcome w h data ts now (w, WOutOfResources)
 | WO_ok insts1 s chs :
     w_register w h = Some insts1 -> w_mspi_hit (w_qos w) insts1 h = false -> w_ms_hit (w_qos w) insts1 = false ->
     find_wi h insts1 = Some s ->
@@ -94,8 +94,8 @@ Qed.
 Lemma w_write_outcome w h data ts now : write_outcome w h data ts now (w_write w h data ts now).
 Proof.
   unfold w_write. destruct (w_register w h) as [insts1|] eqn:Er; [|now apply WO_instances].
-  destruct (w_mspi_hit (w_qos w) insts1 h) eqn:E1; [now apply WO_mspi|].
-  destruct (w_ms_hit (w_qos w) insts1) eqn:E2; [now apply WO_ms|].
+  destruct (w_mspi_hit (w_qos w) insts1 h) eqn:E1; [now apply (WO_mspi w h data ts now insts1)|].
+  destruct (w_ms_hit (w_qos w) insts1) eqn:E2; [now apply (WO_ms w h data ts now insts1)|].
   destruct (w_register_found _ _ _ Er) as [s Hs]. rewrite Hs.
   eapply WO_ok; eauto. destruct (match wq_life (w_qos w) with Some d => _ | None => false end); auto.
 Qed.
@@ -164,48 +164,41 @@ Proof.
 Qed.
 
 (* ---- refused: nothing stored ---- *)
-(* the sample bookkeeping, the transport writer and the sequence number are untouched; the
-   list of registered instances is the same or has gained h with no samples *)
+(* a refused write changes nothing at all: no sample, no sequence number, no change handed to
+   the transport writer, and the list of registered instances is unchanged *)
+Theorem w_refused_unchanged w h data ts now :
+  snd (w_write w h data ts now) = WOutOfResources -> fst (w_write w h data ts now) = w.
+Proof.
+  pose proof (w_write_outcome w h data ts now) as O. destruct (w_write w h data ts now) as [w' r]. cbn [fst snd].
+  inversion O as [Hr|insts1 Hr H1|insts1 Hr H1 H2|insts1 s chs Hr H1 H2 Hf Hc]; subst; try discriminate; reflexivity.
+Qed.
 Theorem w_refused_stores_no_sample w h data ts now :
   snd (w_write w h data ts now) = WOutOfResources ->
   let w' := fst (w_write w h data ts now) in
-  w_seq w' = w_seq w /\ w_changes w' = w_changes w /\ w_qos w' = w_qos w /\
-  (w_insts w' = w_insts w \/
-   (find_wi h (w_insts w) = None /\ w_insts w' = w_insts w ++ [mkWI h None []])).
-Proof.
-  pose proof (w_write_outcome w h data ts now) as O. destruct (w_write w h data ts now) as [w' r]. cbn [fst snd].
-  assert (Hreg : forall insts1, w_register w h = Some insts1 ->
-            insts1 = w_insts w \/ (find_wi h (w_insts w) = None /\ insts1 = w_insts w ++ [mkWI h None []])).
-  { intros insts1. unfold w_register. destruct (existsb (fun x => wi_h x =? h) (w_insts w)) eqn:E.
-    - intros H. injection H as <-. now left.
-    - destruct (len_lt _ _); [|discriminate]. intros H. injection H as <-. right. split; [|reflexivity].
-      destruct (find_wi h (w_insts w)) eqn:F; [|reflexivity].
-      assert (X : existsb (fun x => wi_h x =? h) (w_insts w) = true) by (apply find_wi_existsb; eauto). congruence. }
-  inversion O as [Hr|insts1 Hr H1|insts1 Hr H1 H2|insts1 s chs Hr H1 H2 Hf Hc]; subst; try discriminate; intros _;
-    cbn [w_seq w_changes w_qos w_insts]; repeat split; auto.
-Qed.
+  w_seq w' = w_seq w /\ w_changes w' = w_changes w /\ w_qos w' = w_qos w /\ w_insts w' = w_insts w.
+Proof. intros H. cbn zeta. rewrite (w_refused_unchanged _ _ _ _ _ H). auto. Qed.
 
-(* outside the recorded class (the instance is already registered) a refused write changes nothing at all *)
 Theorem w_refused_registered_unchanged w h data ts now s :
   find_wi h (w_insts w) = Some s ->
   snd (w_write w h data ts now) = WOutOfResources -> fst (w_write w h data ts now) = w.
-Proof.
-  intros Hs Hr. destruct (w_refused_stores_no_sample w h data ts now Hr) as (A & B & C & [D|[D _]]); [|congruence].
-  destruct (fst (w_write w h data ts now)) as [i sq ch q], w as [i0 sq0 ch0 q0]. cbn in *. congruence.
-Qed.
+Proof. intros _. apply w_refused_unchanged. Qed.
 
-(* the recorded deviation is real: max_samples 1, max_instances 2 — the refused write of
-   instance 2 leaves it registered, and instance 3 is then refused for max_instances *)
-Theorem w_refused_registers_refuted :
-  exists q ops h data ts now,
-    let w := w_run q ops in
-    snd (w_write w h data ts now) = WOutOfResources /\
-    w_insts (fst (w_write w h data ts now)) <> w_insts w /\
-    snd (w_write (fst (w_write w h data ts now)) 3 0 0 0) = WOutOfResources /\
-    snd (w_write w 3 0 0 0) = WOutOfResources /\ w_register w 3 <> None.
+(* the tests on the list after the deferred push are the code's tests on the list before it *)
+Lemma w_tests_before_push w h insts1 :
+  w_register w h = Some insts1 ->
+  total insts1 = total (w_insts w) /\
+  match find_wi h insts1 with Some s => slen s | None => 0 end =
+  match find_wi h (w_insts w) with Some s => slen s | None => 0 end.
 Proof.
-  exists (mkWQ None (Some 1) (Some 2) None None), [WApp 1 101 10 10], 2, 102, 20, 20.
-  vm_compute. repeat split; discriminate.
+  unfold w_register. destruct (existsb (fun x => wi_h x =? h) (w_insts w)) eqn:E.
+  - intros H. injection H as <-. auto.
+  - destruct (len_lt _ _); [|discriminate]. intros H. injection H as <-.
+    assert (Hn : find_wi h (w_insts w) = None).
+    { destruct (find_wi h (w_insts w)) eqn:F; [|reflexivity].
+      assert (X : existsb (fun x => wi_h x =? h) (w_insts w) = true) by (apply find_wi_existsb; eauto). congruence. }
+    split.
+    + rewrite total_app, total_cons, total_nil. cbn. lia.
+    + rewrite (find_wi_none_app _ _ _ Hn), Hn. cbn [find_wi wi_h]. rewrite Z.eqb_refl. reflexivity.
 Qed.
 
 (* ---- accepted: exactly one sample recorded ---- *)
@@ -351,8 +344,9 @@ Proof.
   intros Hinv Hnn Hd1 Hroom. pose proof Hinv as (Hq & _ & _).
   pose proof (w_write_outcome w h data ts now) as O. destruct (w_write w h data ts now) as [w' r]. cbn [fst].
   pose proof (fun i => w_register_inv q w h i Hinv Hnn Hd1 Hroom) as Hreg.
-  inversion O as [Hr|insts1 Hr H1|insts1 Hr H1 H2|insts1 s chs Hr H1 H2 Hf Hc]; subst; [exact Hinv| | |];
-    destruct (Hreg insts1 Hr) as ((Hms & Hmi & Hmspi) & Hd & Hroom1); try (repeat split; auto; fail).
+  inversion O as [Hr|insts1 Hr H1|insts1 Hr H1 H2|insts1 s chs Hr H1 H2 Hf Hc];
+    [subst; exact Hinv|subst; exact Hinv|subst; exact Hinv|]; subst;
+    destruct (Hreg insts1 Hr) as ((Hms & Hmi & Hmspi) & Hd & Hroom1).
   destruct (upd_wi_spec h (w_touch ts (w_seq w + 1)) insts1 s Hf (fun x => eq_refl)) as (l1 & l2 & El & Eu & _).
   assert (Hs : slen (w_touch ts (w_seq w + 1) s) = slen s + 1).
   { unfold slen, w_touch. cbn [wi_samples]. rewrite app_length. cbn [length]. lia. }
@@ -460,7 +454,8 @@ Proof.
     symmetry. apply find_wi_existsb. eauto. }
   assert (Hslen : slen (mkWI (wi_h s) (wi_lwt s) rest) = d - 1).
   { unfold slen in *. cbn [wi_samples]. rewrite Es in Hl. cbn [length] in Hl. lia. }
-  inversion O as [Hr|insts1 Hr H1|insts1 Hr H1 H2|insts1 s1 chs Hr H1 H2 Hf Hc]; try subst r; try reflexivity; exfalso.
+  change r with (snd (w', r)). generalize dependent (w', r). intros res O.
+  inversion O as [Hr|insts1 Hr H1|insts1 Hr H1 H2|insts1 s1 chs Hr H1 H2 Hf Hc]; cbn [snd]; try reflexivity; exfalso.
   - congruence.
   - rewrite Hreg in Hr. injection Hr as <-. apply w_mspi_hit_iff in H1 as (m & s1 & Em & F1 & L & Hdm).
     rewrite Ef in F1. injection F1 as <-. rewrite Eq, Hq in Em, Hdm. specialize (Hdm d Ed).
